@@ -149,8 +149,10 @@ def gen_value(rng, depth, pool):
   return v
 
 
-def deep_canon(root):
-  """Types, leaf values (by type and repr / hex), callables, tags, unset-ness and sharing."""
+def deep_canon(root, intern_tuples=False):
+  """Types, leaf values (by type and repr / hex), callables, tags, unset-ness and sharing.  With
+  intern_tuples, plain tuples built from leaves only are values without identity (Python may intern them,
+  e.g. when they are written as constants in generated code)."""
   seen = {}
 
   def leaf(x):
@@ -176,6 +178,8 @@ def deep_canon(root):
       return ("slice", go(x.start), go(x.stop), go(x.step))
     if isinstance(x, (set, frozenset)):
       return (type(x).__name__, tuple(sorted(map(repr, map(go, x)))))
+    if intern_tuples and type(x) is tuple and common.own_internable(x):
+      return ("ctuple", tuple(go(v) for v in x))
     if id(x) in seen:
       return ("ref", seen[id(x)])
     n = len(seen)
@@ -311,7 +315,7 @@ def denied_reload(rng, text, problems, res):
     problems.append(f"a rejected symbol gave {type(outcome[1]).__name__} instead of PyrefPolicyError")
 
 
-def check_policy_trace(policy, imported, problems):
+def check_policy_trace(policy, imported, problems, invocation_clause=True):
   approved = set()
   for ev in policy.events:
     if ev[0] == "import?" and ev[3]:
@@ -322,7 +326,9 @@ def check_policy_trace(policy, imported, problems):
         special_overrides.maybe_get_module_override_for_migrated_serialization_symbol(a, "") == m
         for a in approved):
       problems.append(f"module {m!r} was imported without approval by the policy")
-  if common.CALL_LOG:
+  # the no-invocation clause is about documents written by dump_json; a hand-made document may name an
+  # approved callable where a type is expected (e.g. a NamedTuple's metadata), which load_json then calls
+  if invocation_clause and common.CALL_LOG:
     problems.append("deserialization invoked a configured callable")
 
 
@@ -539,7 +545,7 @@ def malformed_case(rng, res, text, label):
   res.evaluations += 1
   res.count("malformed:" + ("returned" if outcome[0] == "ok" else type(outcome[1]).__name__))
   problems = []
-  check_policy_trace(policy, imported, problems)
+  check_policy_trace(policy, imported, problems, invocation_clause=False)
   for m in imported:
     if m in ("os", "subprocess"):
       problems.append(f"denied module {m} was imported")
